@@ -57,7 +57,7 @@ inductive Ev where
   | recv (p : List Byte) (k : Nat)     -- receive_cb_(buffer = p); the callback consumed k bytes
   | discard (p : List Byte)            -- no receive callback set: p dropped with a warning
   | sendComplete (outstanding : Nat)   -- ghost: bytes accepted by send() and not yet on the wire
-  | readZero (unpresented : Nat)       -- ghost: bytes read from the kernel and never presented
+  | readZero (unpresented : Nat)       -- ghost: bytes the peer wrote that were never presented
   | readError (code : Nat)
   | writeError (code : Nat)
   | disconnected (viaError : Bool) (unpresented : Nat)   -- TcpConnection's disconnected callback
@@ -213,7 +213,7 @@ def fire (s : S) (cb : Option (List Act)) (e : Ev) : S :=
   | none => s
   | some as => runActs { s with hist := s.hist ++ [e] } as
 
-def unpresented (s : S) : Nat := s.got.length - s.pres
+def unpresented (s : S) : Nat := s.fed.length - s.pres
 
 /-- `TcpConnection::onSocketClosed()` (read-zero and read-error both end here) -/
 def socketClosed (s : S) (viaErr : Bool) : S :=
